@@ -27,7 +27,7 @@ from vf.gen import reactions as RG
 from vf.ref import units as U
 
 ID = 'C04'
-N = {'quick': 10000, 'thorough': 60000}
+N = {'quick': 13000, 'thorough': 150000}
 NT_RULE = ('case = one object (mode / StatMech +-references +-misc models / Nasa / Nasa9 / Shomate gas|surface '
            '+-coverage model / Reaction|ChemkinReaction|SurfaceReaction) + T (scalar, array for the empirical '
            'classes, documented default for energies) + an option set + 5-6 unit strings (all 42 in the directed '
